@@ -320,6 +320,9 @@ pub fn execute_digests(sc: &DScenario) -> (Vec<DFinding>, u64, bool) {
             }
         };
         built_ok |= d.get("build").map_or(false, |b| b == "ok");
+        if std::env::var("VERIF_D_DEBUG2").is_ok() {
+            eprintln!("seed {seed}: {:?}", d.iter().map(|(k, v)| (*k, format!("{:x}", fnv(v.as_bytes())))).collect::<Vec<_>>());
+        }
         for (k, v) in &d {
             lh = crate::rng::fnv_add(lh, k.as_bytes());
             lh = crate::rng::fnv_add(lh, &fnv(v.as_bytes()).to_le_bytes());
@@ -638,9 +641,21 @@ pub fn check_main(tier: &str) -> i32 {
             };
             shrink(sc, class, &fails)
         } else {
-            let fails = |c: &DScenario| execute_digests(c).0.iter().any(|f| f.class == *class);
+            let fails = |c: &DScenario| {
+                let f = execute_digests(c).0;
+                if std::env::var("VERIF_D_DEBUG").is_ok() {
+                    eprintln!("shrink probe: {} findings {:?}", f.len(), f.iter().map(|x| format!("{} {}", x.class, x.detail.chars().take(150).collect::<String>())).collect::<Vec<_>>());
+                }
+                f.iter().any(|f| f.class == *class)
+            };
             shrink(sc, class, &fails)
         };
+        if std::env::var("VERIF_D_DEBUG").is_ok() {
+            for _ in 0..3 {
+                eprintln!("final small: {:?}", execute_digests(&small).0.iter().map(|f| f.class.clone()).collect::<Vec<_>>());
+            }
+            eprintln!("small = {}", serde_json::to_string(&small).unwrap());
+        }
         let replay = json!({"engine": "D", "property": "C15", "class": class, "seed": seed, "index": idx, "occurrences_in_run": cnt, "detail": detail, "grammar_text": small.gram.render(), "scenario": small});
         let path = write_replay(&vdir, &format!("C15-{}-{}.json", sanitize(class), seed), &replay).unwrap();
         let st = crate::driver_r::run_guarded(&exe, &["replay", path.to_str().unwrap(), "--quiet"], 120.0);
